@@ -31,15 +31,17 @@ def comb(kind, params, inputs, regs=None):
     import fam.allcases  # noqa: F401  (registers cases)
     from fam import CASES
     from spec.ops import IntOps
+    from elab.constmode import const_inputs
     c = CASES[kind]
     pyrtl.reset_working_block()
-    c.build(params)
+    with const_inputs(params.get('_const') if isinstance(params, dict) else None) as consts:
+        c.build(params)
     block = pyrtl.working_block()
     regmap = {}
     for nm, v in (regs or {}).items():
         regmap[block.wirevector_by_name[nm]] = v
     got, _ = _sim_outputs(block, [inputs], regmap)
-    exp = c.spec(IntOps, params, dict(inputs))
+    exp = c.spec(IntOps, params, dict(inputs, **{n: v for n, (v, bw) in consts.items()}))
     obs = {k: v[0] for k, v in got.items() if k in exp}
     exp = {k: int(v) for k, v in exp.items() if k in obs}
     return dict(failed=(obs != exp), observed=obs, expected=exp)
